@@ -36,7 +36,7 @@ def _describe(tier):
         'bounds': '%d keys x 3 values BFS fixpoint; DFS depth %d' % (nk, 4 if tier == 'quick' else 5),
         'assumptions': ['only dbm.dumb exists in this image: DBMDict cannot be reopened (its own existence check refuses), which is the part the property excludes',
                         'equal canon => equal futures: the classes keep no state besides the mapping and the closed marker (guarded by the undeduplicated DFS)'],
-        'must_be_nonzero': ['bfs-configs', 'dfs-histories', 'after-close', 'reopen', 'refused-values', 'from_dict', 'scale-histories'],
+        'must_be_nonzero': ['bfs-configs', 'dfs-histories', 'after-close', 'reopen', 'refused-values', 'from_dict', 'scale-histories', 'short-write-returned'],
     }
 
 
